@@ -11,7 +11,7 @@ import re
 
 from .. import srcgen
 from ..harness import Result
-from ..simfs import PREFIX, Store
+from ..simfs import PREFIX, Store, clear_known_caches, scenario_prefix
 from ..streams import EventLog, SimInputStream, SimOutputStream
 from ..term import strip_ansi
 
@@ -194,9 +194,9 @@ def execute(sc):
     res = Result()
     log = EventLog()
     store = Store()
-    # process-global state of the code under test: reset so that a scenario is a pure function
-    Frame._content_cache.clear()
-    ExceptionTrace._FRAME_SNIPPET_CACHE.clear()
+    # process-global caches of the code under test are keyed by file name: every scenario has its
+    # own store directory (and known caches are dropped, best effort)
+    clear_known_caches()
     old_open = getattr(_frame_mod, "open", None)
     _frame_mod.open = store.open
     try:
@@ -207,8 +207,7 @@ def execute(sc):
         else:
             _frame_mod.open = old_open
         store.cleanup()
-        Frame._content_cache.clear()
-        ExceptionTrace._FRAME_SNIPPET_CACHE.clear()
+        clear_known_caches()
     res.events = log.events
     for k, v in store.fault_hits.items():
         res.fault("source_" + k, v)
@@ -287,8 +286,9 @@ def _run(sc, res, log, store, r):
     fault = sc["fault"]
     depth = max(1, sc["depth"])
     src = srcgen.gen_module(r, depth, sc["recursion"], sc["style"])
-    path_a = PREFIX + "app/main_mod.py"
-    path_b = PREFIX + "vendor/lib_mod.py"
+    base = scenario_prefix(sc)
+    path_a = base + "app/main_mod.py"
+    path_b = base + "vendor/lib_mod.py"
     exc = srcgen.make_exception(sc["exc"])
 
     # ---- raise it ---------------------------------------------------------------------------
@@ -389,7 +389,7 @@ def _run(sc, res, log, store, r):
     if ignore_kind == "none":
         trace.ignore_files_in("^/nowhere/")
     elif ignore_kind == "some":
-        trace.ignore_files_in("^" + re.escape(PREFIX + "vendor/"))
+        trace.ignore_files_in("^" + re.escape(base + "vendor/"))
     elif ignore_kind == "all":
         trace.ignore_files_in("^" + re.escape(PREFIX))
     if sc["simple"]:
@@ -447,7 +447,7 @@ def _run(sc, res, log, store, r):
             res.probe("same_trace_object_rendered_again")
         if not (sc.get("same_trace") and k2 == sc["ignore"]):
             # (the same object with the same pattern is simply rendered again, at another verbosity)
-            trace2.ignore_files_in({"none": "^/nowhere/", "some": "^" + re.escape(PREFIX + "vendor/"), "all": "^" + re.escape(PREFIX)}[k2])
+            trace2.ignore_files_in({"none": "^/nowhere/", "some": "^" + re.escape(base + "vendor/"), "all": "^" + re.escape(PREFIX)}[k2])
         try:
             trace2.render(io2, False)
         except Exception as e:
